@@ -117,6 +117,12 @@ CHECKS = {
                      '(opened values and public zero-test bits) per secret input by exhaustive enumeration for tiny types: equal outputs => statistical distance within the additive slack',
                 note='bounded (l = 4..8, k = 8/16 symbolic; l = 3, k = 2..3 exhaustive); smudging lemma and independence/uniformity of randomness assumed; found and led to the _mod mask repair',
                 technique='modular symbolic execution with a declassification ghost + exhaustive distribution enumeration'),
+    'C28': dict(engine='symx-mp', category='other', design_ref='DESIGN.md §5 C28',
+                text='m real runtimes on one loop run programs on secure groups (S4, quadratic residues, Schnorr group, Ed25519 in two coordinate systems, BN256, a class group): conversion and '
+                     'input, @, ~, ^, ==, !=, if_else, repeat with public and SECRET exponents (secure field of the group order and secure integers, public and secret bases), repeat_public; '
+                     'every opened result equals the plain group operation for every party, configurations (m,t) up to 5 (quick) / 7 (thorough) parties, with and without PRSS',
+                note='bounded: seeded concrete runs, small QR/Schnorr parameters; secure hyperelliptic groups need NumPy (not covered); led to one repair (symmetric groups with m >= degree)',
+                technique='bounded multi-party execution against plain-group oracles'),
     'C33': dict(engine='native-enum', category='other', design_ref='DESIGN.md §5 C33',
                 text='range/shape contracts of every function of mpyc/random.py on argument grids incl. population sizes 0 and 1 with deterministic PRSS seeds; uniformity decided by '
                      'enumerating ALL secret-bit strings (random_bits stubbed) up to a stated length: counts per outcome exactly proportional to the documented probabilities at every depth',
